@@ -366,23 +366,196 @@ def _r2_products(run: Run, mod) -> None:
                            else "k1*dot(p, q) + k2*dot(s, t) + k0*norm(v)^2 (no permutation sign for the symmetric product, dot(v, v) = norm(v)^2)"))
         else:
             run.sample({"product": cname, "accumulation": "identity"})
-        # the same with a compound (non-atomic) vector among the sorted operands: the term is then built by the evaluating constructors
-        run.ob("R2", f"{cname}:accumulation:compound-operand")
-        comp = _Vec(t_cross(gvec("m"), gvec("n")), cross_of=(_Vec(gvec("m")), _Vec(gvec("n"))))
-        plus2 = (comp, ) + tuple(_Vec(gvec(x)) for x in "qr"[:arity - 1])
-        rd2 = _VecPy(methods, f"{cname}.__new__[compound]", depth_limit=8)
-        rd2.hook_log = []
-        rd2.log_hooks = True
-        rd2.ordered = {1: {plus2: k1}}
+        # the same with a compound (non-atomic) vector among the sorted operands, at EVERY position (identity order puts a cross product anywhere):
+        # the term is then built by the evaluating constructors
+        for pos in range(arity):
+            run.ob("R2", f"{cname}:accumulation:compound-operand@{pos}")
+            comp = _Vec(t_cross(gvec("m"), gvec("n")), cross_of=(_Vec(gvec("m")), _Vec(gvec("n"))))
+            others = [_Vec(gvec(x)) for x in "qr"[:arity - 1]]
+            plus2 = tuple(others[:pos] + [comp] + others[pos:])
+            rd2 = _VecPy(methods, f"{cname}.__new__[compound@{pos}]", depth_limit=8)
+            rd2.hook_log = []
+            rd2.log_hooks = True
+            rd2.ordered = {1: {plus2: k1}}
+            try:
+                got2 = rd2.call("__new__", [("class", cname)] + operands, {"evaluate": True})
+                want2 = scaled(prod[cname](*[x.comps for x in plus2]), k1)
+                g2 = got2.comps if isinstance(got2, _Vec) else got2
+                if not _eq(g2, want2):
+                    run.violate("R2", f"{MOD}:{cname}.__new__:accumulation:compound", mod, fn,
+                                f"{cname}.__new__, given a sorted term whose vector number {pos + 1} is itself a cross product, does not return k1 * {cname}(the sorted vectors, in that order): "
+                                f"a shortcut that is right for one position of the compound operand has the wrong sign (or value) for another")
+                    break
+            except Raised as r_:
+                run.violate("R2", f"{MOD}:{cname}.__new__:accumulation:compound", mod, fn, f"{cname}.__new__ raises {r_.exc} for a compound sorted operand at position {pos + 1}")
+                break
+
+
+class _Lin:
+    """a vector expression as SymPy holds it: `shape` atom (one vector), mul (scalar * vector or scalar * (sum)), add (a sum of scaled vectors);
+    terms: [(vector name, coefficient term)]; for shape mul `factor` is the scalar pulled out in front and the terms are the bracket's"""
+
+    def __init__(self, shape: str, terms: list, factor=None):
+        self.shape, self.terms, self.factor = shape, list(terms), factor
+
+    def comps(self) -> list:
+        out = [num(0)] * 3
+        for nm, c in self.terms:
+            full = op("mul", self.factor, c) if self.factor is not None else c
+            out = [op("add", o, op("mul", full, x)) for o, x in zip(out, gvec(nm))]
+        return out
+
+
+class _NormPy(_VecPy):
+    """VectorNorm.__new__ on _Lin inputs. Results are products kept factor by factor: ("norm", _Lin), ("abs", term), plain scalar terms."""
+
+    def is_instance(self, v, names, n):
+        if isinstance(v, _Lin):
+            if {"SymAdd", "Add"} & set(names):
+                return v.shape == "add"
+            if {"SymMul", "Mul"} & set(names):
+                return v.shape == "mul"
+            if "VectorExpr" in names or "VectorSymbol" in names:
+                return v.shape == "atom"
+            return bool({"Expr", "Basic"} & set(names))
+        return super().is_instance(v, names, n)
+
+    @staticmethod
+    def common_factor(v: "_Lin"):
+        cs = [c for _, c in v.terms]
+        return cs[0] if cs and all(repr(normalize(c)) == repr(normalize(cs[0])) for c in cs) and not (cs[0].op == "num" and cs[0].val == 1) else None
+
+    def hook_method(self, base, attr, args, kwargs, n):
+        if isinstance(base, _Lin):
+            if attr == "doit":
+                return base
+            if attr == "_eval_vector_norm" and not args:
+                return None
+            if attr == "together" and not args and base.shape == "add":
+                k = self.common_factor(base)  # a*v + a*w -> a*(v + w); nothing in common: the sum as it is
+                return _Lin("mul", [(nm, num(1)) for nm, _ in base.terms], k) if k is not None else base
+        return super().hook_method(base, attr, args, kwargs, n)
+
+    def hook_compare(self, o, l, r, n):
+        if isinstance(l, _Lin) and isinstance(o, (ast.Eq, ast.NotEq)) and (r == 0 or (isinstance(r, T) and r.op == "num" and r.val == 0)):
+            return isinstance(o, ast.NotEq)
+        if isinstance(o, (ast.Eq, ast.NotEq)) and isinstance(l, T) and isinstance(r, (int, T)):
+            try:
+                res = same(normalize(l), normalize(r if isinstance(r, T) else num(r)))
+            except AnalysisError:
+                self.fail(n, "comparison of a scalar outside the decidable class")
+            return res if isinstance(o, ast.Eq) else not res
+        return super().hook_compare(o, l, r, n)
+
+    def hook_binop(self, o, l, r, n):
+        def factor_like(x):
+            return (isinstance(x, tuple) and x and x[0] in ("norm", "abs", "prod")) or (isinstance(x, (T, int)) and not isinstance(x, bool))
+        if isinstance(o, ast.Mult) and factor_like(l) and factor_like(r) and any(isinstance(x, tuple) for x in (l, r)):
+            fl = list(l[1]) if isinstance(l, tuple) and l[0] == "prod" else [l]
+            fr = list(r[1]) if isinstance(r, tuple) and r[0] == "prod" else [r]
+            return ("prod", fl + fr)
+        if isinstance(l, _Lin) and isinstance(r, (T, int)) and isinstance(o, (ast.Mult, ast.Div)) and l.shape in ("atom", "mul") and len(l.terms) == 1:
+            c = r if isinstance(r, T) else num(r)
+            return _Lin("mul", [(l.terms[0][0], num(1))], op("mul" if isinstance(o, ast.Mult) else "div", l.factor if l.factor is not None else l.terms[0][1], c))
+        return super().hook_binop(o, l, r, n)
+
+    def hook_call(self, n, env, fns):
+        name = (dotted(n.func) or "").split(".")[-1]
+        if name == "cls":
+            v = self.ev(n.args[0], env, fns)
+            ev_ = next((self.ev(k.value, env, fns) for k in n.keywords if k.arg == "evaluate"), None)
+            if isinstance(v, _Lin) and ev_ is False:
+                return ("norm", v)
+            self.fail(n, "re-entrant evaluating constructor")
+        if name in ("abs", "Abs") and len(n.args) == 1:
+            v = self.ev(n.args[0], env, fns)
+            if isinstance(v, (T, int)):
+                return ("abs", v if isinstance(v, T) else num(v))
+        if name == "_check_vector" and len(n.args) == 1:
+            return self.ev(n.args[0], env, fns)
+        if name == "split_factor" and len(n.args) == 1:
+            v = self.ev(n.args[0], env, fns)
+            if isinstance(v, _Lin) and v.shape == "mul":
+                inner = _Lin("atom", v.terms) if len(v.terms) == 1 else _Lin("add", v.terms)
+                return [inner, v.factor]
+            if isinstance(v, _Lin) and v.shape == "atom":
+                return [v, num(1)]
+            if isinstance(v, _Lin):
+                return [v, num(1)]  # a sum is returned unchanged with factor 1
+        if name == "into_terms" and len(n.args) == 1:
+            v = self.ev(n.args[0], env, fns)
+            if isinstance(v, _Lin) and v.shape == "add":
+                return [_Lin("mul", [(nm, num(1))], c) if not (c.op == "num" and c.val == 1) else _Lin("atom", [(nm, num(1))]) for nm, c in v.terms]
+            if isinstance(v, _Lin):
+                return [v]
+        if name in ("SymAdd", "Add") and name not in self.functions:
+            items = []
+            for a in n.args:
+                items += list(self.ev(a.value, env, fns)) if isinstance(a, ast.Starred) else [self.ev(a, env, fns)]
+            if items and all(isinstance(x, _Lin) and len(x.terms) == 1 for x in items):
+                return _Lin("add", [(x.terms[0][0], x.factor if x.factor is not None else x.terms[0][1]) for x in items])
+            self.fail(n, "sum of something other than scaled vectors")
+        if name == "gcd" and name not in self.functions:
+            vals = [self.ev(a, env, fns) for a in n.args]
+            if len(vals) == 1 and isinstance(vals[0], list):
+                vals = vals[0]
+            if vals and all(isinstance(x, (T, int)) for x in vals):
+                ts = [x if isinstance(x, T) else num(x) for x in vals]
+                if all(x.op == "num" and x.val.denominator == 1 for x in ts):
+                    import math
+                    return num(math.gcd(*[int(x.val) for x in ts]))  # of numbers: the positive divisor
+                if all(repr(normalize(x)) == repr(normalize(ts[0])) for x in ts):
+                    return ts[0]  # SymPy: gcd(a, a) is a - for a symbol the SIGN of the result is the symbol's
+                return var("gcd(" + ",".join(sorted(repr(normalize(x)) for x in ts)) + ")")
+        return super().hook_call(n, env, fns)
+
+
+def _r6_norm(run: Run, mod) -> None:
+    """R6: VectorNorm.__new__ EVALUATED on one vector, a scaled vector, a sum without and with a common scalar factor (a symbol of unknown sign, -1, 2): the
+    result is a product of manifestly non-negative factors (norms, absolute values, positive numbers) whose square is dot(v, v)"""
+    run.rule("R6", "the norm of k*v and of k*v + k*w is a product of manifestly non-negative factors whose square is dot of the argument with itself: norm(k*v) = |k| norm(v)")
+    c = _cls(mod, "VectorNorm")
+    fn = _meth(c, "__new__")
+    methods = ast.Module(body=[x for x in mod.tree.body if not isinstance(x, ast.ClassDef)] + [x for x in c.body if isinstance(x, ast.FunctionDef)], type_ignores=[])
+    k = var("k")
+    cases = [("v", _Lin("atom", [("v", num(1))]))]
+    for kn, kv in (("k", k), ("-1", num(-1)), ("2", num(2)), ("-k", op("neg", k))):
+        cases.append((f"{kn}*v", _Lin("mul", [("v", num(1))], kv)))
+        cases.append((f"{kn}*v + {kn}*w", _Lin("add", [("v", kv), ("w", kv)])))
+    cases.append(("v + w", _Lin("add", [("v", num(1)), ("w", num(1))])))
+    cases.append(("k*v + m*w", _Lin("add", [("v", k), ("w", var("m"))])))
+    for label, arg in cases:
+        run.ob("R6", f"VectorNorm:{label}")
+        rd = _NormPy(methods, f"VectorNorm.__new__[{label}]", depth_limit=8)
         try:
-            got2 = rd2.call("__new__", [("class", cname)] + operands, {"evaluate": True})
-            want2 = scaled(prod[cname](*[x.comps for x in plus2]), k1)
-            g2 = got2.comps if isinstance(got2, _Vec) else got2
-            if not _eq(g2, want2):
-                run.violate("R2", f"{MOD}:{cname}.__new__:accumulation:compound", mod, fn,
-                            f"{cname}.__new__, given a sorted term whose first vector is itself a cross product, does not return k1 * {cname}(that vector, ...) in that order")
+            got = rd.call("__new__", [("class", "VectorNorm"), arg], {"evaluate": True})
         except Raised as r_:
-            run.violate("R2", f"{MOD}:{cname}.__new__:accumulation:compound", mod, fn, f"{cname}.__new__ raises {r_.exc} for a compound sorted operand")
+            run.violate("R6", f"{MOD}:VectorNorm.__new__:{label}", mod, fn, f"norm({label}) raises {r_.exc}")
+            continue
+        factors = list(got[1]) if isinstance(got, tuple) and got and got[0] == "prod" else [got]
+        square = num(1)
+        signed = []
+        for f_ in factors:
+            if isinstance(f_, tuple) and f_ and f_[0] == "norm":
+                cs = f_[1].comps()
+                square = op("mul", square, t_dot(cs, cs))
+            elif isinstance(f_, tuple) and f_ and f_[0] == "abs":
+                square = op("mul", square, op("mul", f_[1], f_[1]))
+            elif isinstance(f_, (T, int)) and not isinstance(f_, bool):
+                t_ = f_ if isinstance(f_, T) else num(f_)
+                square = op("mul", square, op("mul", t_, t_))
+                nf = normalize(t_)
+                if not (t_.op == "num" and t_.val > 0):
+                    signed.append(repr(nf))
+            else:
+                signed.append(repr(f_))
+        want = t_dot(arg.comps(), arg.comps())
+        if signed:
+            run.violate("R6", f"{MOD}:VectorNorm.__new__:sign", mod, fn,
+                        f"norm({label}) is returned with the factor {signed[0]} whose sign nobody knows (a symbol, a gcd of symbols): for a negative value the norm is negative. "
+                        f"Absolute homogeneity is norm(k*v) = |k| * norm(v)")
+        elif not _eq(square, want):
+            run.violate("R6", f"{MOD}:VectorNorm.__new__:value", mod, fn, f"norm({label}) squared is not dot({label}, {label})")
 
 
 def _r2_sort(run: Run) -> None:
@@ -802,6 +975,7 @@ def check(run: Run) -> None:
     _r2_products(run, mod)
     _r3(run, mod)
     n_times = _r3_n_times(run, mod)
+    _r6_norm(run, mod)
     run.rule("R4", "operand hooks (_eval_vector_dot/_eval_vector_cross) are always called with (left operand, right operand) of the product being evaluated")
     run.rule("R5", "termination: every irreducible vector class is atomic for the products (or supplies operand hooks), and each _eval_derivative "
              "differentiates strict sub-expressions only - never itself, nor a freshly built product whose evaluation can return the same class")
